@@ -1,10 +1,13 @@
 ---------------------------------- MODULE Units ----------------------------------
 (* Normalisation of benchmark units to base units (property C04).                  *)
 (*                                                                                 *)
-(* A unit is a sequence of one-character strings.  Four symbols are separators:    *)
-(* "/", "*", "-" and " " (" " stands for every Unicode space).  Everything else is  *)
-(* a component character; "n","s","M","B" are the ones the rule talks about, "x" is *)
-(* the representative of "any other character".                                    *)
+(* A unit is a sequence of one-character strings.  The separators are "/", "*", "-" *)
+(* and blanks (" " stands for every Unicode space; recorded traces use "sp1".."sp4" *)
+(* for the particular blanks they contain).  Everything else is a component         *)
+(* character; "n","s","M","B" are the ones the rule talks about, "x" is the         *)
+(* representative of "any other character".  Offsets count symbols; that the code's *)
+(* byte offsets stay consistent for multi-byte runes is exercised by the harness,   *)
+(* which concretises "x" and " " with multi-byte runes.                             *)
 (*                                                                                 *)
 (* Two definitions of tidying are given and TLC checks that they agree on every     *)
 (* unit up to MaxLen symbols:                                                       *)
@@ -45,18 +48,21 @@ BB  == <<"B">>
 -----------------------------------------------------------------------------
 \* DECLARATIVE definition
 
-Seps == {"/", "*", "-", " "}
+\* " " stands for every Unicode space in generated cases; recorded traces name the
+\* blanks they used (space, tab, U+00A0, U+2003, U+3000) so that their order is visible
+Spaces == {" ", "sp1", "sp2", "sp3", "sp4"}
+Seps == {"/", "*", "-"} \cup Spaces
 IsSep(c) == c \in Seps
 
 MaxOf(S) == CHOOSE x \in S : \A y \in S : y <= x
 
-\* components: maximal runs <<first, last>> of non-separator symbols
+\* components: maximal runs <<first, last>> of non-separator symbols - a run starts
+\* where a non-separator has no non-separator to its left and extends to the first
+\* position that is the last one or is followed by a separator
+MinOf(S) == CHOOSE x \in S : \A y \in S : x <= y
+CompStarts(un) == {i \in 1..Len(un) : ~IsSep(un[i]) /\ (i = 1 \/ IsSep(un[i - 1]))}
 Comps(un) ==
-  {c \in (1..Len(un)) \X (1..Len(un)) :
-     /\ c[1] <= c[2]
-     /\ \A k \in c[1]..c[2] : ~IsSep(un[k])
-     /\ (c[1] = 1 \/ IsSep(un[c[1] - 1]))
-     /\ (c[2] = Len(un) \/ IsSep(un[c[2] + 1]))}
+  {<<i, MinOf({j \in i..Len(un) : j = Len(un) \/ IsSep(un[j + 1])})>> : i \in CompStarts(un)}
 
 \* position i is in the numerator: no "/" or "*" to its left, or the nearest one is "*"
 InNumerator(un, i) ==
@@ -101,7 +107,7 @@ DeclCount(un) == Cardinality(RewrComps(un))
 \* OPERATIONAL transcription (parse.go: parser.next; tidy.go: tidyUnit, tidyUnitUncached)
 \* Offsets are 0-based as in the Go code; rest[i+1] is Go's rest[i].
 
-IsSpaceRune(r) == r = " "
+IsSpaceRune(r) == r \in Spaces      \* unicode.IsSpace
 
 NewParser(un) == [rest |-> un, rpos |-> 0, tok |-> <<>>, pos |-> 0, denom |-> FALSE]
 
@@ -236,65 +242,78 @@ Next ==
 Spec == Init /\ [][Next]_u
 
 -----------------------------------------------------------------------------
-\* Properties  (each evaluates Tidy once per state: t operational, d declarative)
+\* Properties.  Each is stated over t = TidyOp(u) (operational) and d = TidyDecl(u)
+\* (declarative) so that AllProperties can evaluate the two once per state.
 
 Store(t, c) == ReaderStoreT(KeepRawUnitWhenValueUnchanged, u, t, c)
+Same(un) == [unit |-> un, e |-> 0]
 
 \* the code's algorithm computes the declarative definition
-DeclEqOp == TidyOp(u) = TidyDecl(u)
+PDeclEqOp(t, d) == t = d
 
 \* the fast-path table agrees with the declarative definition (checked once)
 FastPathsSound == \A fp \in FastPaths : TidyDecl(fp.unit) = [unit |-> fp.tidied, e |-> fp.e]
 ASSUME FastPathsSound
 
 \* normalising an already normalised unit changes nothing
-Idempotent ==
-  LET t == TidyOp(u)
-      d == TidyDecl(u)
-  IN /\ TidyOp(t.unit) = [unit |-> t.unit, e |-> 0]
-     /\ TidyDecl(d.unit) = [unit |-> d.unit, e |-> 0]
+PIdempotent(t, d) == TidyOp(t.unit) = Same(t.unit) /\ TidyDecl(d.unit) = Same(d.unit)
 
 \* nothing to normalise => untouched, factor 1 (in particular ns / MB in the
 \* denominator or as part of a longer word)
-Passthrough ==
-  (RewrComps(u) = {}) => TidyOp(u) = [unit |-> u, e |-> 0]
+\* (RewrStarts: where the components to rewrite start; RewrStartsAgree ties it to Comps)
+RewrStarts(un) == {i \in 1..Len(un) : RewrAt(un, i, NS) \/ RewrAt(un, i, MB)}
+PPassthrough(t, d) == (RewrStarts(u) = {}) => t = Same(u)
 
 \* the position-wise form of the declarative definition describes the components
 RewrStartsAgree ==
-  /\ {c[1] : c \in NsComps(u)} = {i \in 1..Len(u) : RewrAt(u, i, NS)}
-  /\ {c[1] : c \in MbComps(u)} = {i \in 1..Len(u) : RewrAt(u, i, MB)}
+  \A rw \in {RewrComps(u)} :
+    /\ {c[1] : c \in {x \in rw : u[x[1]] = "n"}} = {i \in 1..Len(u) : RewrAt(u, i, NS)}
+    /\ {c[1] : c \in {x \in rw : u[x[1]] = "M"}} = {i \in 1..Len(u) : RewrAt(u, i, MB)}
+    /\ \A c \in rw : c[2] = c[1] + 1
 
 \* and conversely something to normalise => the unit is rewritten
-ChangedIffRewritten ==
-  (DeclUnit(u) # u) <=> (RewrComps(u) # {})
+PChangedIffRewritten(t, d) == (d.unit # u) <=> (RewrStarts(u) # {})
 
 \* for one written unit all values are stored under ONE unit name ...
-OneNamePerMetric ==
-  LET t == TidyOp(u) IN
-  \A c1, c2 \in ValueClasses : Store(t, c1).unit = Store(t, c2).unit
+POneNamePerMetric(t, d) ==
+  \A name \in {Store(t, "finite").unit} : \A c \in ValueClasses : Store(t, c).unit = name
 
 \* ... namely the tidied unit, scaled accordingly, for every class of value
-StoredIsTidied ==
-  LET t == TidyOp(u)
-      d == TidyDecl(u)
-  IN \A c \in ValueClasses : Store(t, c).unit = d.unit /\ Store(t, c).e = d.e
+PStoredIsTidied(t, d) ==
+  \A c \in ValueClasses : Store(t, c).unit = d.unit /\ Store(t, c).e = d.e
 
 \* the pair as written is kept alongside iff tidying changed the unit
-OrigKeptIffChanged ==
-  LET t == TidyOp(u)
-      changed == DeclUnit(u) # u
-  IN \A c \in ValueClasses : Store(t, c).orig <=> changed
+POrigKeptIffChanged(t, d) ==
+  \A c \in ValueClasses : Store(t, c).orig <=> (d.unit # u)
 
 \* metadata declared under either spelling is found under either spelling
-MetadataEitherSpelling ==
-  LET d == DeclUnit(u) IN MetaKey(d) = MetaKey(u)
+\* (MetaKey(u) is t.unit)
+PMetadataEitherSpelling(t, d) == MetaKey(d.unit) = t.unit
 
 \* a filter naming the written or the base unit matches the measurement
-FilterEitherSpelling ==
-  LET t == TidyOp(u)
-      d == DeclUnit(u)
-  IN \A c \in ValueClasses : FilterMatches(u, u, Store(t, c)) /\ FilterMatches(d, u, Store(t, c))
+PFilterEitherSpelling(t, d) ==
+  \A c \in ValueClasses : FilterMatches(u, u, Store(t, c)) /\ FilterMatches(d.unit, u, Store(t, c))
+
+DeclEqOp               == PDeclEqOp(TidyOp(u), TidyDecl(u))
+Idempotent             == PIdempotent(TidyOp(u), TidyDecl(u))
+Passthrough            == PPassthrough(TidyOp(u), TidyDecl(u))
+ChangedIffRewritten    == PChangedIffRewritten(TidyOp(u), TidyDecl(u))
+OneNamePerMetric       == POneNamePerMetric(TidyOp(u), TidyDecl(u))
+StoredIsTidied         == PStoredIsTidied(TidyOp(u), TidyDecl(u))
+OrigKeptIffChanged     == POrigKeptIffChanged(TidyOp(u), TidyDecl(u))
+MetadataEitherSpelling == PMetadataEitherSpelling(TidyOp(u), TidyDecl(u))
+FilterEitherSpelling   == PFilterEitherSpelling(TidyOp(u), TidyDecl(u))
 
 TypeOK == Len(u) <= 16
+
+\* the conjunction of all of the above with one evaluation of t and d per state
+\* (used by the thorough configuration; a failure is broken down by re-running
+\* the named invariants)
+AllProperties ==
+  \A t \in {TidyOp(u)} : \A d \in {TidyDecl(u)} :       \* bound once per state
+     /\ TypeOK /\ RewrStartsAgree
+     /\ PDeclEqOp(t, d) /\ PIdempotent(t, d) /\ PPassthrough(t, d) /\ PChangedIffRewritten(t, d)
+     /\ POneNamePerMetric(t, d) /\ PStoredIsTidied(t, d) /\ POrigKeptIffChanged(t, d)
+     /\ PMetadataEitherSpelling(t, d) /\ PFilterEitherSpelling(t, d)
 
 =============================================================================
